@@ -1,5 +1,6 @@
 #pragma once
 #include "tbbstub.h"
+#include "task_group.h"
 namespace tbb {
 class task_arena
 {
@@ -14,6 +15,8 @@ class task_arena
   {
     tbbstub::enqueue(std::function<void()>(std::forward<F>(f)));
   }
+  // an enqueued task runs eventually even if no thread ever waits for it (a worker is created for it if need be)
+  void enqueue(task_handle &&h) { tbbstub::group_enqueue(h.g, std::move(h.f)); }
   template <typename F>
   void execute(F &&f)
   {
